@@ -329,6 +329,11 @@ func TestC03Validator(t *testing.T) {
 		if isPh || f.End-f.Entry < 2 {
 			continue
 		}
+		if strings.HasPrefix(f.Name, "_Z") || strings.HasPrefix(f.Name, "__") || strings.Contains(f.Name, "sanitizer") || strings.Contains(f.Name, "tsan") {
+			// C/C++ code of the race-detector runtime linked into race builds: not emitted by the Go toolchain
+			rep.Stat("skipped_non_go_functions", 1)
+			continue
+		}
 		p := phs[fi%2]
 		funcLen := int(f.End - f.Entry)
 		O := img.Pristine(f.Entry, min(funcLen+16, int(hiOf(img)-f.Entry)))
